@@ -15,10 +15,19 @@ def units():
         U.append(dict(base, name="ima.aiff_decode_step.ch%d" % ch, entry="h_ima_aiff", defines=["-DLAYOUT_AIFF", "-DCH=%d" % ch],
                       function="ima_adpcm.c:aiff_ima_decode_block", cbmc_flags=["--unwind", "40"],
                       kind="proof(full domain of predictor x step index x code, first two steps per channel; channels=%d)" % ch))
+    for lay, fn in (("WAV", "wavlike_ima_seek"), ("AIFF", "aiff_ima_seek")):
+        for ch in (1, 2):
+            U.append({"name": "ima.%s.ch%d" % (fn, ch), "props": ["C06"], "harness": "ima_seek.harness.c", "entry": "h_ima_seek", "enforce": fn, "replace": ["psf_fseek"],
+                      "function": "ima_adpcm.c:" + fn, "defines": ["-DLAYOUT_%s" % lay, "-DCH=%d" % ch], "timeout": 1200, "backend": "kissat",
+                      "kind": "enumerated(block geometry of the %s layout, channels=%d)" % (lay, ch),
+                      "trusted": ["decode_block_c: effect of the block decoders on blockcount/samplecount and the file position (frame contract, not enforced here)",
+                                  "psf_fseek succeeds (failed repositioning is not reported by these functions: see not_decided)"]})
     return U
 
 
 NOT_DECIDED = {
+    "C06": ["IMA seek: a failing psf_fseek inside the codec seek is ignored by the code (return value unchecked); the units assume repositioning succeeds",
+            "MS ADPCM, PAF24, SDS, ALAC, DWVW, GSM610 seek functions"],
     "C20": ["Microsoft ADPCM block decoder (published definitions disagree on truncating division vs arithmetic shift; no single reference)",
             "portable IEEE-754 serialisers float32_*_read/write, double64_*_read/write (pow/frexp based; multiplier circuits out of SAT reach)",
             "OKI/VOX codec (excluded by the property text)"],
